@@ -250,42 +250,43 @@ type Unsupported struct {
 
 // Run is one verification run over a loaded program.
 type Run struct {
-	prog          *ssa.Program
-	fset          *token.FileSet
-	d             *Decls
-	spec          *SpecDB
-	arrSorts      map[string]Sort
-	arrRefEl      map[string]bool
-	arrSliceRefEl map[string]string // arrays whose elements are slices of references: slice sort
-	libFieldArr   map[string]bool   // field arrays of library (non-frp) struct types
-	mu            sync.Mutex
-	obls          []*Obligation
-	wg            sync.WaitGroup
-	unsup         []Unsupported
-	unit          string
-	cellN         int
-	pathN         int
-	maxPaths      int
-	timeout       int
-	maxDepth      int
-	assumed       []string // verifAssume records
-	trusted       map[string]bool
-	modCache      map[*ssa.Function]*ModSet
-	pathsCut      bool
-	pruneAll      bool // contract directive "prune"
-	inlined       map[string]bool
-	opaque        map[string]bool
-	curProps      []string
-	stepN         int
-	pureDepth     int
-	curCon        *Contract
-	closable      map[string]bool
-	captureReader *ssa.Function   // capture check: the callback whose reads decide whether a later field store matters
-	kindFilter    map[string]bool // sweeps: obligation kinds to generate (nil: all)
-	sendable      map[string]bool
-	ctxInner      map[string]Val
-	mapZero       map[string]string // Mv array name -> zero term of the element type
-	inInit        bool
+	prog            *ssa.Program
+	fset            *token.FileSet
+	d               *Decls
+	spec            *SpecDB
+	arrSorts        map[string]Sort
+	arrRefEl        map[string]bool
+	arrSliceRefEl   map[string]string // arrays whose elements are slices of references: slice sort
+	libFieldArr     map[string]bool   // field arrays of library (non-frp) struct types
+	mu              sync.Mutex
+	obls            []*Obligation
+	wg              sync.WaitGroup
+	unsup           []Unsupported
+	unit            string
+	cellN           int
+	pathN           int
+	maxPaths        int
+	timeout         int
+	maxDepth        int
+	assumed         []string // verifAssume records
+	trusted         map[string]bool
+	modCache        map[*ssa.Function]*ModSet
+	pathsCut        bool
+	sliceWriteCache map[*ssa.Function]bool
+	pruneAll        bool // contract directive "prune"
+	inlined         map[string]bool
+	opaque          map[string]bool
+	curProps        []string
+	stepN           int
+	pureDepth       int
+	curCon          *Contract
+	closable        map[string]bool
+	captureReader   *ssa.Function   // capture check: the callback whose reads decide whether a later field store matters
+	kindFilter      map[string]bool // sweeps: obligation kinds to generate (nil: all)
+	sendable        map[string]bool
+	ctxInner        map[string]Val
+	mapZero         map[string]string // Mv array name -> zero term of the element type
+	inInit          bool
 }
 
 func (x *Run) unsupported(what string, pos token.Pos) {
